@@ -53,7 +53,15 @@ pub fn run(ctx: &Ctx) -> Outcome {
         lens.dedup();
         let applies: Vec<(usize, Kind)> = lens.iter().flat_map(|&n| [(n, Kind::InPlace), (n, Kind::B2b)]).collect();
         let depth = tier.pick(3, 4);
-        for (ivn, iv) in iv_variants(seed, bs).into_iter().skip(1) {
+        let mut ivs: Vec<(String, Vec<u8>)> = iv_variants(seed, bs).into_iter().skip(1).map(|(n, v)| (n.to_string(), v)).collect();
+        if d.mode == "belt" {
+            // s_0 = E(IV) a few blocks before the 2^128 wrap: positions and seeks on both sides of it
+            let c = rf::Ciph::new(cfg, key);
+            for j in [0u128, 2, par as u128 + 1] {
+                ivs.push((format!("E(IV)=2^128-1-{j}"), c.d(&(u128::MAX - j).to_le_bytes())));
+            }
+        }
+        for (ivn, iv) in ivs {
             let m = SeekMachine { cfg, d, key, iv: &iv, data: &data, init: Init::Fresh, seeks: seeks.clone(), applies: applies.clone(), check_log: true };
             let st = bfs::bfs(&m, &mut rep, depth, tier.pick(4_000, 60_000), &|| ctx.over_cap());
             // completeness cross-check of the explorer against an independent enumeration of the reference model
